@@ -235,6 +235,29 @@ def workflow_job(job):
                     b.tile_base_as_study(Image.from_array(arr))
                     b.set_name("api")
                     b.write_index_rel_wtml()
+                elif wf == "tile-wwtl":
+                    # a WWT layer file holding one sky-image layer stored as JPEG or PNG (the layer's own file type
+                    # is not the tiles' one).  The layer description comes from toasty's own test data.
+                    _, w, h, ext = job
+                    import io
+                    from PIL import Image as PILImage
+                    from wwt_data_formats.filecabinet import FileCabinetWriter
+                    from toasty.tests import mk_test_path
+
+                    with open(mk_test_path("layercontainer.wwtxml"), "rb") as f:
+                        xml = f.read().decode("utf-8-sig")
+                    xml = xml.replace('Extension=".jpg"', 'Extension="%s"' % ext).replace('FileType=".jpg"', 'FileType="%s"' % ext).replace("InternalPath.jpg", "InternalPath" + ext)
+                    yy, xx = np.mgrid[0:h, 0:w]
+                    arr = np.stack([(xx * 3) % 256, (yy * 5) % 256, (xx + yy) % 256], axis=-1).astype("u1")
+                    buf = io.BytesIO()
+                    PILImage.fromarray(arr).save(buf, format={".jpg": "JPEG", ".png": "PNG"}[ext])
+                    fw = FileCabinetWriter()
+                    lc, layer = "55cb0cce-c44a-4a44-a509-ea66fce643a5", "7ecb6411-e4ee-4dfa-90ef-77d6f486c7d2"
+                    fw.add_file_with_data(lc + ".wwtxml", xml.encode("utf-8"))
+                    fw.add_file_with_data(lc + "\\" + layer + ext, buf.getvalue())
+                    with open(os.path.join(d, "layer.wwtl"), "wb") as f:
+                        fw.emit(f)
+                    cli.entrypoint(["tile-wwtl", "--placeholder-thumbnail", "--outdir", out, os.path.join(d, "layer.wwtl")])
                 elif wf == "pipeline":
                     _, w, h = job
                     out = run_pipeline(d, w, h)
@@ -510,6 +533,7 @@ def run(tier, seed):
     ]
     if tier == "thorough":
         wfs += [("tile-study", 1025, 513, True), ("tile-allsky", 3, "plate-carree-galactic", True), ("tile-multi-tan", 3), ("pipeline", 300, 700), ("tile-study-fits", 1030, 200)]
+    wfs += [("tile-wwtl", 700, 520, ".jpg"), ("tile-wwtl", 300, 200, ".png")]
     jobs += [("workflow",) + w for w in wfs]
     jobs = rng_order(jobs, seed)
     par.pmap(_job, jobs, rep)
